@@ -6,17 +6,16 @@
  "replace": [],
  "annotate": ["network/network_read.c", "datastruct/mpool.h"],
  "specs": {"datastruct/mpool.h": "contracts/net_mpool.h.spec"},
- "defines": ["VERIF_HALLOC", "H_DIR=0", "NET_MAXOBJ=32"],
+ "defines": ["VERIF_HALLOC", "H_DIR=0", "NET_MAXOBJ=65536"],
  "matrix": {"NET_MP_CAP": [16, 32]},
  "backend": "kissat",
- "thorough_defines": ["NET_MAXOBJ=64"],
  "models": ["models/net_events.c", "models/net_os.c"],
  "cbmc": ["--malloc-may-fail", "--malloc-fail-null"],
  "timeout": 300,
  "assumptions": [
   "recv(2) per POSIX with a ghost peer stream (models/net_os.c); event loop per models/net_events.c (C04 verifies the real one)",
   "user callback = abstract stub h_ucb (arbitrary status, may re-register the descriptor)",
-  "object-size parameter: buflen <= NET_MAXOBJ (32 quick, 64 thorough); pool stack capacity 16 (static) or 32 (grown), per group instance",
+  "object-size parameter: buflen <= NET_MAXOBJ (65536); pool stack capacity 16 (static) or 32 (grown), per group instance",
   "real mpool code inlined (ghost counters only)"
  ]
 }
